@@ -119,6 +119,10 @@ type Scenario struct {
 	Post func(x *Exec, r *vrt.Result)
 	// OnQuiescent runs in controller context at every quiescent state.
 	OnQuiescent func(x *Exec, s *vrt.Sched)
+	// MonitorOnce marks scenarios whose oracle is an external monitor that reports each finding
+	// only once per process (the race detector): the confirmation replays then only have to
+	// reproduce the observations, not the failures.
+	MonitorOnce bool
 }
 
 // Options bound one exploration.
@@ -398,12 +402,15 @@ func confirm(sc *Scenario, x *Exec, r *vrt.Result) *Violation {
 	var lr *vrt.Result
 	for k := 0; k < 2; k++ {
 		y, yr := RunOnce(sc, ch, true)
-		if y.diverged != "" || sigKey(y.fails) != sigKey(x.fails) || strings.Join(y.obs, "|") != strings.Join(x.obs, "|") {
+		if y.diverged != "" || (!sc.MonitorOnce && sigKey(y.fails) != sigKey(x.fails)) || strings.Join(y.obs, "|") != strings.Join(x.obs, "|") {
 			fmt.Fprintf(os.Stderr, "INTERNAL: replay of a violating execution diverged in %s: %s\n  first: %v %v\n  replay: %v %v\n",
 				sc.Name, y.diverged, x.fails, x.obs, y.fails, y.obs)
 			os.Exit(3)
 		}
 		last, lr = y, yr
+	}
+	if sc.MonitorOnce {
+		last.fails = x.fails
 	}
 	return &Violation{Scenario: sc.Name, Params: sc.Params, Choices: ch, Failures: last.fails, Trace: lr.Trace,
 		Obs: last.obs, Notes: last.notes, Stuck: lr.StuckInfo, Panic: lr.Panic}
